@@ -14,6 +14,9 @@ package balance
 //@   requires t != nil && widthOK(rn, t) && allComplete(t)
 //@   modifies t.rows, elems(t.rows), elems(t.rows[0].cells)
 //@   ghost cum []real = 0
+//@   callback CommoditiesSorted=0
+//@   ensures [C06] [C02] @sorted: len(vals) != 0 ==> tlen() == old(tlen()) + 1 && trecv("CommoditiesSorted", old(tlen())) == vals
+//@   loop 1 invariant [C06] [C02] @order: tlen() == old(tlen()) + 1 && $range == tres("CommoditiesSorted", old(tlen()))
 //@   loop 2 ghost-end cum := upd(cum, $i - 1, ($i == 1 ? 0.0 : cum[$i - 2]) + vals[amounts.Key{Date: date, Commodity: commodity}])
 //@   ensures @rect: allComplete(t) && len(t.rows) >= old(len(t.rows)) && t.columns == old(t.columns)
 //@   ensures @kept: forall k int :: {t.rows[k]} 0 <= k && k < old(len(t.rows)) ==> t.rows[k] == old(t.rows[k])
@@ -27,3 +30,15 @@ package balance
 //@   loop 2 invariant @cell: $i > 0 ==> typeIs(row.cells[len(row.cells) - 1], "table.numberCell")
 //@        && dyn(row.cells[len(row.cells) - 1], "table.numberCell").n == (neg ? 0.0 - (rn.Diff ? vals[amounts.Key{Date: $range[$i - 1], Commodity: commodity}] : cum[$i - 1]) : (rn.Diff ? vals[amounts.Key{Date: $range[$i - 1], Commodity: commodity}] : cum[$i - 1]))
 //@   loop 2 invariant @total: !rn.Diff ==> total == ($i == 0 ? 0.0 : cum[$i - 1])
+//
+// The sibling comparators of the report tree (C06): siblings have distinct segments (they are the keys
+// of one Children map), so the row order is a function of the report alone iff a tie between two
+// siblings implies equal segments (top-level nodes: equal account types).
+//@ def nodeReady(n *Node) bool := n != nil && n.Value.Account != nil
+//@ func (*Report).SortAlpha$1
+//@   requires nodeReady(n1) && nodeReady(n2)
+//@   ensures [C06] @tie: result == 0 ==> (len(n1.Value.Account.segments) == 1 && len(n2.Value.Account.segments) == 1 ? n1.Value.Account.accountType == n2.Value.Account.accountType : n1.Segment == n2.Segment)
+//
+//@ func (*Report).SortWeighted$2
+//@   requires nodeReady(n1) && nodeReady(n2)
+//@   ensures [C06] @tie: result == 0 ==> (len(n1.Value.Account.segments) == 1 && len(n2.Value.Account.segments) == 1 ? n1.Value.Account.accountType == n2.Value.Account.accountType : n1.Segment == n2.Segment)
